@@ -20,6 +20,102 @@ pub struct CheckStats {
     pub transitions: u64,
 }
 
+
+/// Droppable / duplicatable by the checker's own structural table (None: a type constructor the table does
+/// not know - not judged). Deliberately not read from the registry's type info.
+fn own_drop_dup(p: &Program, ty: &cairo_lang_sierra::ids::ConcreteTypeId, depth: usize) -> Option<(bool, bool)> {
+    use cairo_lang_sierra::program::GenericArg;
+    if depth > 12 {
+        return None;
+    }
+    let d = p.type_declarations.iter().find(|d| d.id == *ty)?;
+    let inner = |i: usize| match d.long_id.generic_args.get(i) {
+        Some(GenericArg::Type(t)) => own_drop_dup(p, t, depth + 1),
+        _ => None,
+    };
+    Some(match d.long_id.generic_id.0.as_str() {
+        "felt252" | "u8" | "u16" | "u32" | "u64" | "u128" | "i8" | "i16" | "i32" | "i64" | "i128" | "bytes31" | "BoundedInt" | "EcPoint" | "EcState" | "ContractAddress" | "ClassHash"
+        | "StorageAddress" | "StorageBaseAddress" | "BuiltinCosts" | "Snapshot" | "IntRange" | "Secp256k1Point" | "Secp256r1Point" | "qm31" => (true, true),
+        "Array" | "Uninitialized" => (true, false),
+        "NonZero" | "Box" | "Nullable" => inner(0)?,
+        "Felt252Dict" | "Felt252DictEntry" | "RangeCheck" | "RangeCheck96" | "Pedersen" | "Poseidon" | "Bitwise" | "EcOp" | "SegmentArena" | "GasBuiltin" | "System" | "AddMod" | "MulMod" => (false, false),
+        "SquashedFelt252Dict" => (inner(0)?.0, false),
+        "Struct" | "Enum" => {
+            let mut r = (true, true);
+            for a in d.long_id.generic_args.iter().skip(1) {
+                let GenericArg::Type(t) = a else { return None };
+                let x = own_drop_dup(p, t, depth + 1)?;
+                r = (r.0 && x.0, r.1 && x.1);
+            }
+            r
+        }
+        _ => return None,
+    })
+}
+
+/// The signature of the libfuncs whose types follow from the program's own declarations, computed without
+/// the registry: (parameter types, result types of the single branch). None: not such a libfunc.
+fn own_signature(p: &Program, lid: &cairo_lang_sierra::ids::ConcreteLibfuncId) -> Option<Result<(Vec<u64>, Vec<u64>), String>> {
+    use cairo_lang_sierra::program::GenericArg;
+    let d = p.libfunc_declarations.iter().find(|d| d.id == *lid)?;
+    let args = &d.long_id.generic_args;
+    let ty0 = || match args.first() {
+        Some(GenericArg::Type(t)) => Some(t.clone()),
+        _ => None,
+    };
+    let members = |t: &cairo_lang_sierra::ids::ConcreteTypeId, want: &str| -> Option<Vec<u64>> {
+        let td = p.type_declarations.iter().find(|x| x.id == *t)?;
+        if td.long_id.generic_id.0 != want {
+            return None;
+        }
+        td.long_id.generic_args.iter().skip(1).map(|a| if let GenericArg::Type(t) = a { Some(t.id) } else { None }).collect()
+    };
+    Some(match d.long_id.generic_id.0.as_str() {
+        "drop" => {
+            let t = ty0()?;
+            match own_drop_dup(p, &t, 0) {
+                Some((false, _)) => Err(format!("drop of a type that is not droppable ({})", d.long_id)),
+                _ => Ok((vec![t.id], vec![])),
+            }
+        }
+        "dup" => {
+            let t = ty0()?;
+            match own_drop_dup(p, &t, 0) {
+                Some((_, false)) => Err(format!("dup of a type that is not duplicatable ({})", d.long_id)),
+                _ => Ok((vec![t.id], vec![t.id, t.id])),
+            }
+        }
+        "store_temp" | "rename" => {
+            let t = ty0()?;
+            Ok((vec![t.id], vec![t.id]))
+        }
+        "struct_construct" => {
+            let t = ty0()?;
+            Ok((members(&t, "Struct")?, vec![t.id]))
+        }
+        "struct_deconstruct" => {
+            let t = ty0()?;
+            Ok((vec![t.id], members(&t, "Struct")?))
+        }
+        "enum_init" => {
+            let t = ty0()?;
+            let Some(GenericArg::Value(idx)) = args.get(1) else { return None };
+            let vs = members(&t, "Enum")?;
+            let i: usize = idx.try_into().ok()?;
+            match vs.get(i) {
+                Some(v) => Ok((vec![*v], vec![t.id])),
+                None => Err(format!("enum_init with variant index {i} of {} variants", vs.len())),
+            }
+        }
+        "function_call" => {
+            let Some(GenericArg::UserFunc(fid)) = args.first() else { return None };
+            let f = p.funcs.iter().find(|f| f.id == *fid)?;
+            Ok((f.signature.param_types.iter().map(|t| t.id).collect(), f.signature.ret_types.iter().map(|t| t.id).collect()))
+        }
+        _ => return None,
+    })
+}
+
 /// The independent checker. Err(reason) when the program is ill-typed / non-linear.
 pub fn check_program(p: &Program, stats: &mut CheckStats) -> Result<(), String> {
     let registry = ProgramRegistry::<CoreType, CoreLibfunc>::new(p).map_err(|e| format!("registry: {e}"))?;
@@ -76,6 +172,19 @@ pub fn check_program(p: &Program, stats: &mut CheckStats) -> Result<(), String> 
                 Statement::Invocation(inv) => {
                     let lf = registry.get_libfunc(&inv.libfunc_id).map_err(|e| format!("statement {idx}: {e}"))?;
                     let params = lf.param_signatures();
+                    // libfuncs whose types follow from the declarations: the registry's signature must be the
+                    // one the declarations give (and drop / dup only for types that allow it)
+                    match own_signature(p, &inv.libfunc_id) {
+                        Some(Err(e)) => return Err(format!("statement {idx}: {e}")),
+                        Some(Ok((ps, rs))) => {
+                            let reg_ps: Vec<u64> = params.iter().map(|x| x.ty.id).collect();
+                            let reg_rs: Vec<u64> = lf.branch_signatures().first().map(|b| b.vars.iter().map(|v| v.ty.id).collect()).unwrap_or_default();
+                            if lf.branch_signatures().len() != 1 || reg_ps != ps || reg_rs != rs {
+                                return Err(format!("statement {idx}: the signature of `{}` differs from the one its declarations give", inv.libfunc_id));
+                            }
+                        }
+                        None => {}
+                    }
                     if params.len() != inv.args.len() {
                         return Err(format!("statement {idx}: {} args for {} params", inv.args.len(), params.len()));
                     }
@@ -127,9 +236,11 @@ pub fn check_program(p: &Program, stats: &mut CheckStats) -> Result<(), String> 
     Ok(())
 }
 
-const BASE: &str = "
+const BASE_TYPES: &str = "
 type felt252 = felt252;
 type NonZero<felt252> = NonZero<felt252>;
+";
+const BASE: &str = "
 libfunc dup<felt252> = dup<felt252>;
 libfunc drop<felt252> = drop<felt252>;
 libfunc drop<NonZero<felt252>> = drop<NonZero<felt252>>;
@@ -142,7 +253,12 @@ libfunc jump = jump;
 
 /// Hand-broken negatives: (name, body). All must be rejected by the checker; `ok` must be accepted.
 fn negatives() -> Vec<(&'static str, String, bool)> {
-    let f = |body: &str| format!("{BASE}\n{body}");
+    let f = |body: &str| {
+        // a body may start with extra `type` declarations: they go before the libfunc declarations
+        let (types, rest): (Vec<&str>, Vec<&str>) = body.lines().partition(|l| l.starts_with("type "));
+        let (libfuncs, stmts): (Vec<&str>, Vec<&str>) = rest.into_iter().partition(|l| l.starts_with("libfunc "));
+        format!("{BASE_TYPES}{}\n{BASE}{}\n{}", types.join("\n"), libfuncs.join("\n"), stmts.join("\n"))
+    };
     vec![
         ("ok", f("dup<felt252>([0]) -> ([0], [2]);\nfelt252_add([0], [2]) -> ([3]);\nstore_temp<felt252>([3]) -> ([3]);\nreturn([3]);\ntest::f@0([0]: felt252) -> (felt252);"), true),
         ("ok-branch", f("dup<felt252>([0]) -> ([0], [1]);\nfelt252_is_zero([1]) { fallthrough() 5([2]) };\nbranch_align() -> ();\nstore_temp<felt252>([0]) -> ([0]);\nreturn([0]);\nbranch_align() -> ();\ndrop<NonZero<felt252>>([2]) -> ();\nstore_temp<felt252>([0]) -> ([0]);\nreturn([0]);\ntest::f@0([0]: felt252) -> (felt252);"), true),
@@ -154,6 +270,15 @@ fn negatives() -> Vec<(&'static str, String, bool)> {
         ("merge-mismatch", f("dup<felt252>([0]) -> ([0], [1]);\nfelt252_is_zero([1]) { fallthrough() 4([2]) };\nbranch_align() -> ();\njump() { 6() };\nbranch_align() -> ();\ndrop<NonZero<felt252>>([2]) -> ();\ndup<felt252>([0]) -> ([0], [5]);\nstore_temp<felt252>([0]) -> ([0]);\nreturn([0]);\ntest::f@0([0]: felt252) -> (felt252);"), false),
         ("override", f("dup<felt252>([0]) -> ([0], [0]);\nstore_temp<felt252>([0]) -> ([0]);\nreturn([0]);\ntest::f@0([0]: felt252) -> (felt252);"), false),
         ("ret-count", f("store_temp<felt252>([0]) -> ([0]);\nreturn([0]);\ntest::f@0([0]: felt252) -> (felt252, felt252);"), false),
+        ("ret-wrong-type", f("dup<felt252>([0]) -> ([0], [1]);\nfelt252_is_zero([1]) { fallthrough() 5([2]) };\nbranch_align() -> ();\nstore_temp<felt252>([0]) -> ([0]);\nreturn([0]);\nbranch_align() -> ();\ndrop<felt252>([0]) -> ();\nreturn([2]);\ntest::f@0([0]: felt252) -> (felt252);"), false),
+        ("param-ids-collide", f("drop<felt252>([0]) -> ();\nreturn();\ntest::f@0([0]: felt252, [0]: felt252) -> ();"), false),
+        ("dup-array", f("type Array<felt252> = Array<felt252>;\nlibfunc dup<Array<felt252>> = dup<Array<felt252>>;\nlibfunc drop<Array<felt252>> = drop<Array<felt252>>;\ndup<Array<felt252>>([0]) -> ([0], [1]);\ndrop<Array<felt252>>([1]) -> ();\nreturn([0]);\ntest::f@0([0]: Array<felt252>) -> (Array<felt252>);"), false),
+        ("drop-dict", f("type Felt252Dict<felt252> = Felt252Dict<felt252>;\nlibfunc drop<Felt252Dict<felt252>> = drop<Felt252Dict<felt252>>;\ndrop<Felt252Dict<felt252>>([0]) -> ();\nreturn();\ntest::f@0([0]: Felt252Dict<felt252>) -> ();"), false),
+        ("drop-builtin", f("type RangeCheck = RangeCheck;\nlibfunc drop<RangeCheck> = drop<RangeCheck>;\ndrop<RangeCheck>([0]) -> ();\nreturn();\ntest::f@0([0]: RangeCheck) -> ();"), false),
+        ("dup-struct-with-array", f("type Array<felt252> = Array<felt252>;\ntype S = Struct<ut@S, felt252, Array<felt252>>;\nlibfunc dup<S> = dup<S>;\nlibfunc drop<S> = drop<S>;\ndup<S>([0]) -> ([0], [1]);\ndrop<S>([1]) -> ();\nreturn([0]);\ntest::f@0([0]: S) -> (S);"), false),
+        ("call-wrong-arg-type", f("libfunc function_call<user@test::g> = function_call<user@test::g>;\nlibfunc felt252_const<1> = felt252_const<1>;\nfunction_call<user@test::g>([0]) -> ([1]);\nreturn([1]);\nfelt252_const<1>() -> ([1]);\nstore_temp<felt252>([1]) -> ([1]);\ndrop<felt252>([0]) -> ();\nreturn([1]);\ntest::f@0([0]: NonZero<felt252>) -> (felt252);\ntest::g@2([0]: felt252) -> (felt252);"), false),
+        ("call-arity", f("libfunc function_call<user@test::g> = function_call<user@test::g>;\nfunction_call<user@test::g>([0], [1]) -> ([2]);\nreturn([2]);\nstore_temp<felt252>([0]) -> ([0]);\nreturn([0]);\ntest::f@0([0]: felt252, [1]: felt252) -> (felt252);\ntest::g@2([0]: felt252) -> (felt252);"), false),
+        ("leftover-on-one-path", f("dup<felt252>([0]) -> ([0], [1]);\nfelt252_is_zero([1]) { fallthrough() 5([2]) };\nbranch_align() -> ();\nstore_temp<felt252>([0]) -> ([0]);\nreturn([0]);\nbranch_align() -> ();\nstore_temp<felt252>([0]) -> ([0]);\nreturn([0]);\ntest::f@0([0]: felt252) -> (felt252);"), false),
     ]
 }
 
@@ -292,7 +417,7 @@ fn run_both(ctx: &mut Ctx) {
 pub static C15: CheckDef = CheckDef {
     id: "C15",
     level: "model_checking",
-    rule: "[thorough adds second-order mutants MUT(MUT(s)) of the <=200 smallest programs (<=9 statements), ~10^7 programs] [seed programs: the corpus plus the compiling wrapper programs of the C14 instantiation lattice (quick: every 4th)] Model: an independent abstract interpreter (no code shared with annotations.rs/references.rs) over states (statement index, map var -> type), exploring every control-flow path of every function with a worklist; libfunc signatures come from ProgramRegistry. Transfer: args must be live with exactly the parameter types and are consumed; results are added with the branch's types and may not override a live var; a statement reached twice must see the identical map and the same function; every target of a multi-branch invocation must be an alignment point; return needs exactly the declared types and nothing left over. Enumerated: the whole C14(a) single-point mutation space of the corpus programs + the unmutated programs + hand-broken negatives (vacuity guard). Conformance: for EVERY mutant both verdicts are computed; compile==Ok && checker==Err is the violation; states/transitions = abstract states and branch edges explored by the checker; traces_validated_against_impl = accepted programs on which both verdicts were compared; observed_outcomes is the 2x2 agreement matrix.",
+    rule: "[thorough adds second-order mutants MUT(MUT(s)) of the <=200 smallest programs (<=9 statements), ~10^7 programs] [seed programs: the corpus plus the compiling wrapper programs of the C14 instantiation lattice (quick: every 4th)] Model: an independent abstract interpreter (no code shared with annotations.rs/references.rs) over states (statement index, map var -> type), exploring every control-flow path of every function with a worklist; libfunc signatures come from ProgramRegistry. Transfer: args must be live with exactly the parameter types and are consumed; results are added with the branch's types and may not override a live var; a statement reached twice must see the identical map and the same function; every target of a multi-branch invocation must be an alignment point; return needs exactly the declared types and nothing left over. Enumerated: the whole C14(a) single-point mutation space of the corpus programs + the unmutated programs + hand-broken negatives (vacuity guard). Conformance: for EVERY mutant both verdicts are computed; compile==Ok && checker==Err is the violation; states/transitions = abstract states and branch edges explored by the checker; traces_validated_against_impl = accepted programs on which both verdicts were compared; observed_outcomes is the 2x2 agreement matrix. The checker is independent of the registry where the property speaks about types: the signatures of drop / dup / store_temp / rename / struct_construct / struct_deconstruct / enum_init / function_call are recomputed from the type and function declarations and must equal the registry's, and drop / dup are admitted only for types its own structural table calls droppable / duplicatable (18 hand-broken negatives incl. dup of an array, drop of a dict / builtin, dup of a struct holding an array, call with a wrong argument type / arity, colliding parameter ids, a wrong return type, a variable left over on one path).",
     assumptions: &["libfunc signatures as reported by ProgramRegistry are the specification of each operation's types (the property's own observation point)", "dup/drop legality is enforced by the registry's specialization and not re-derived"],
     run: run_both,
     stack_mb: 8,
